@@ -75,10 +75,10 @@ Sub(a, b)     == SubSeq(src, a, b - 1)                              \* character
 
 -----------------------------------------------------------------------------
 \* DIALECT SWITCHES (every documented difference between the three scanners)
-\* Repairs of the XGo scanner committed to /repo (`fix:` commits ead8333, 7645ecf, 8b7f5d9 + 9bba499, 7e77a61).  With a tag removed the xgo dialect models the scanner before that repair.
+\* Repairs of the XGo scanner committed to /repo (`fix:` commits ead8333, 7645ecf, 8b7f5d9 + 9bba499, 7e77a61; tpl/scanner: 143f899).  With a tag removed the xgo dialect models the scanner before that repair.
 \* (The repairs 60a3978 "UNIT offset" and 42ff237 "# at EOF" need no switch: the model always had the
 \* behaviour the property demands.)
-XGoFixed == {"tilde", "sharp-empty", "sharp-star", "findlineend-sharp"}
+XGoFixed == {"tilde", "sharp-empty", "sharp-star", "findlineend-sharp", "tpl-findlineend-sharp"}
 
 HasKeywords      == dia \in {"xgo", "go"}         \* tpl: every identifier is IDENT
 HasPrefixStrings == dia = "xgo"                    \* c"..", C"..", py".." (scanner.go: Scan, case isLetter)
@@ -99,9 +99,10 @@ SharpSkipsOne    == dia = "xgo" /\ "sharp-empty" \notin XGoFixed
 SharpStripsCR    == dia = "xgo"                    \* tpl: scanSharpComment keeps every \r
 SemiBeforeComment == dia \in {"xgo", "tpl"}        \* go <= 1.19 order: `;` first, at the comment's offset (findLineEnd)
                                                    \* go >= 1.20: comment first, `;` at the newline (nlPos)
-FindLineEndSharp == dia = "xgo" /\ "findlineend-sharp" \in XGoFixed
+FindLineEndSharp == \/ dia = "xgo" /\ "findlineend-sharp" \in XGoFixed
+                    \/ dia = "tpl" /\ "tpl-findlineend-sharp" \in XGoFixed
                                                    \* findLineEnd answers true at a `#` after a /* */ comment (a # comment
-                                                   \* runs to the end of the line); tpl and unrepaired xgo: false, so
+                                                   \* runs to the end of the line); before the repairs: false, so
                                                    \* `x /* c */ # d` + newline gets no semicolon at all
 KeepStarCRSlash  == dia \in {"xgo", "go"}          \* stripCR keeps the \r of *\r/ inside /* */ (tpl strips all)
 
